@@ -140,6 +140,27 @@ class Env:
 
 # --------------------------------------------------------------------------- A-models
 
+def ufn(w, name):
+    """
+    Uninterpreted positive function `name` (A-models).  Symbolically w.fn; natively (replay of a solver model / path
+    cross-check) the model's table is looked up with a RELATIVE tolerance per argument before falling back to w.fn:
+    the guard outcomes of dew_point.py make the solver pick arguments such as 1e-16 and 1e-32, which the absolute
+    tolerance of the engine's table lookup cannot tell apart (it would hand back the value of another argument tuple).
+    """
+    f = w.fn(name, positive=True)
+    if w.symbolic:
+        return f
+    entries = getattr(w, 'tables', {}).get(name, {}).get('entries', [])
+
+    def call(*args):
+        args = [float(a) for a in args]
+        for eargs, val in entries:
+            if len(eargs) == len(args) and all(a == b or abs(a - b) <= 1e-9 * max(abs(a), abs(b)) for a, b in zip(eargs, args)):
+                return val
+        return f(*args)
+    return call
+
+
 class StubPsat:
     """Vapour pressure handle: uninterpreted positive function of T; keeps the real handle's Tmin / Tmax."""
 
@@ -150,7 +171,7 @@ class StubPsat:
 
     def __call__(self, T, P=None):
         w = self.env.w
-        v = w.fn(f'Psat.{self.ID}', positive=True)(T)
+        v = ufn(w, f'Psat.{self.ID}')(T)
         if self.floor:
             # DewPoint._T_error replaces vapour pressures below 1e-16 Pa ("prevent floating point error"); the
             # property's equation is about the model's Psat, so such models are outside the requires.
@@ -181,7 +202,7 @@ class StubGamma:
         w = self.env.w
         xs = list(x)
         cx = _canon(self.order, xs)
-        out = [w.fn(f'gamma.{ID}', positive=True)(*cx, T) for ID in self.IDs]
+        out = [ufn(w, f'gamma.{ID}')(*cx, T) for ID in self.IDs]
         if self.env.cfg['z'].startswith('s*('):
             for v in out: w.assume(w.le(v, 1e12))     # see StubPsat: keeps the trace guards decidable
         if self.recording:
@@ -202,7 +223,7 @@ class StubPhi:
     def __call__(self, y, T, P):
         w = self.env.w
         cy = _canon(self.order, y)
-        return self.env.arr([w.fn(f'phi.{ID}', positive=True)(*cy, T, P) for ID in self.IDs])
+        return self.env.arr([ufn(w, f'phi.{ID}')(*cy, T, P) for ID in self.IDs])
 
 
 class StubPCF:
@@ -211,7 +232,7 @@ class StubPCF:
 
     def __call__(self, T, P, Psats=None):
         w = self.env.w
-        return self.env.arr([w.fn(f'pcf.{ID}', positive=True)(T, P) for ID in self.IDs])
+        return self.env.arr([ufn(w, f'pcf.{ID}')(T, P) for ID in self.IDs])
 
 
 # --------------------------------------------------------------------------- A-root
@@ -221,6 +242,7 @@ class StubFlx:
 
     def __init__(self, env, fail=(), k=0, script=None, tag='', fixed_point_positive=False):
         self.env = env
+        self.stay = fixed_point_positive and env.cfg.get('gamma') == 'ideal'
         self.fixed_point_positive = fixed_point_positive   # dew point: the iterate is gamma (> 0); bubble point: y (>= 0)
         self.fail = set(fail)
         self.k = k
@@ -263,10 +285,13 @@ class StubFlx:
     def wegstein(self, f, x, xtol=5e-8, args=(), maxiter=50, checkiter=True, checkconvergence=True, convergenceiter=0):
         w = self.env.w
         key = self._key('wegstein')
-        if not _has_sym(x):
-            r = f(x, *args)                                  # A-root-stay (ideal models: the start value 1.0 stays)
-            if not _has_sym(r) and np.all(np.asarray(r, dtype=float) == np.asarray(x, dtype=float)):
+        if self.stay:
+            # A-root-stay, used with the REAL ideal activity model only (its start value 1.0 is the fixed point); decided by
+            # the configuration, not by the type of x, so that the native replay takes the same route as the symbolic run
+            r = f(x, *args)
+            if not _has_sym(r) and not _has_sym(x) and np.all(np.asarray(r, dtype=float) == np.asarray(x, dtype=float)):
                 return r
+            raise AssertionError('ideal model: the start value of the fixed-point iteration is not a fixed point')
         n = len(x)
         if self.script is not None and key in self.script:
             xs = self.script[key]
@@ -277,7 +302,12 @@ class StubFlx:
         hi = 1e12 if (self.fixed_point_positive and self.env.cfg['z'].startswith('s*(')) else None   # a gamma value (StubGamma bound)
         xs = self.env.arr([self.env.leaf(f'{key}.x{i}', lo=0., lo_strict=self.fixed_point_positive, hi=hi) for i in range(n)])
         r = f(xs, *args)
-        w.assume(w.all_eq(list(r), list(xs)))
+        if w.symbolic:
+            w.assume(w.all_eq(list(r), list(xs)))
+        else:
+            # natively with a RELATIVE tolerance: a solver model with values like 5e-65 next to 1e-32 does not survive the
+            # conversion to floats (distinct argument tuples collapse); such a replay is not a model of the path -> skipped
+            w.assume(all(a == b or abs(a - b) <= 1e-6 * max(abs(a), abs(b)) for a, b in zip([float(i) for i in r], [float(i) for i in xs])))
         self.roots[key] = xs
         return xs
 
@@ -293,7 +323,7 @@ SOLVERS = {'Ty': ('bubble', 'solve_Ty', 'P'), 'Py': ('bubble', 'solve_Py', 'T'),
 
 def _tsat_stub(env):
     def Tsat(self, P, Tguess=None, Tmin=None, Tmax=None, *, check_validity=True):
-        return env.w.fn(f'Tsat.{self.ID}', positive=True)(P)
+        return ufn(env.w, f'Tsat.{self.ID}')(P)
     return Tsat
 
 
@@ -423,7 +453,7 @@ def check_point(w, h, zvals, given, which, res, comp, tag=''):
         c = h.chems[k]
         if which == 'P':
             if bool(P <= c.Pc):
-                w.ensure(f'{tag}single component: T = Tsat of that chemical at P', w.eq(T, w.fn(f'Tsat.{c.ID}', positive=True)(P)))
+                w.ensure(f'{tag}single component: T = Tsat of that chemical at P', w.eq(T, ufn(w, f'Tsat.{c.ID}')(P)))
         else:
             if bool(T <= c.Tc):
                 w.ensure(f'{tag}single component: P = Psat of that chemical at T', w.eq(P, h.point.Psats[k](T)))
@@ -486,12 +516,13 @@ def _configs_for(solver):
             # every guard outcome of dew_point.py is explored on the '+'/'?' patterns (40-70 paths per configuration with a
             # single residual evaluation); configurations with several evaluations use the s*(..) pattern for the dew point
             multi = '++' if kind == 'bubble' else SC
-            add(WE, multi, k=1, phi='ideal'); add(WE, multi, secant='raise', k=1, **ideal)
+            add(WE, multi, k=1, phi='ideal', pcf='stub' if kind == 'bubble' else 'mock'); add(WE, multi, secant='raise', k=1, **ideal)
             add(WE, '??', **ideal); add(WE, '?+', gamma='ideal', pcf='mock'); add(WE, '+?', **ideal)
             for gm, ph, pc in (('ideal', 'stub', 'mock'), ('ideal', 'ideal', 'stub'), ('stub', 'stub', 'mock'), ('stub', 'ideal', 'stub'),
                                ('ideal', 'stub', 'stub'), ('stub', 'stub', 'stub')):
                 add(WE, '++', gamma=gm, phi=ph, pcf=pc)
-            add(WE, SC, secant='raise', phi='ideal', pcf='mock'); add(WE, SC, secant='raise'); add(WE, SC, k=1, phi='ideal', pcf='mock')
+            add(WE, SC, secant='raise', phi='ideal', pcf='mock'); add(WE, SC, k=1, phi='ideal', pcf='mock')
+            if kind == 'bubble': add(WE, SC, secant='raise')
             add(WE, SC); add(WE, SC, via='call')
             add(WEM, '+0+', phi='ideal'); add(WEM, 's*(0.2,0.3,0.5)', phi='ideal', pcf='mock'); add(WEM, 's*(0.2,0.3,0.5)')
             add(('Methanol', 'Water', 'Ethanol'), 's*(0.5,0.25,0.25)')
@@ -598,8 +629,6 @@ def relation_configs(tier):
             if not bubble:
                 add(solver, 'scale', pat=SC, gamma='stub'); add(solver, 'perm', pat=SC, gamma='stub', perm=[1, 0]); add(solver, 'inverse', pat=SC, gamma='stub')
                 add(solver, 'scale')            # free composition: every guard outcome, in both calls
-            else:
-                add(solver, 'scale', gamma='stub', phi='stub', pcf='stub')
     return out
 
 
